@@ -24,7 +24,8 @@ def _src_entry():
     fresh = st.builds(lambda c0, cx, cq: dict(c0=c0, cx=cx, cq=cq), coef, coef, st.lists(coef, min_size=0, max_size=3))
     table = st.builds(lambda c0, cx: dict(c0=c0, cx=cx, mode="table"), coef, coef)         # a stored array, the same object at every call
     view = st.builds(lambda j: dict(mode="view", var=j), st.integers(0, 1))                 # the source is a conserved variable: returns the state array itself
-    return st.one_of(st.none(), fresh, fresh, table, view)
+    ratio = st.builds(lambda c0: dict(c0=c0, mode="ratio"), coef)                            # k * q1 / q0: depends on the state, invariant under a rescaling of it
+    return st.one_of(st.none(), fresh, fresh, table, view, ratio)
 
 
 def _bcpair(md):
@@ -126,6 +127,22 @@ def check_sources(case):
     r2, _ = _rhs(disc1, model1, mesh1, md, prim)
     for i in range(len(r1)):
         require(np.array_equal(r1[i], r2[i]), "second-evaluation", "equation %d: the second evaluation of the operator with sources differs from the first by %.3g" % (i, float(np.max(np.abs(r1[i] - r2[i])))))
+    # the same two operators then evaluate ANOTHER state (each conservative variable scaled by its own factor): the sources follow the state they are given
+    fac = [1.3, 0.7, 1.9][:len(q)]
+    qB = [f_ * np.asarray(x, dtype=float) for f_, x in zip(fac, q)]
+    rB0 = [np.array(x, dtype=float, copy=True) for x in disc0.rhs(cases.build_field(model0, mesh0, [x.copy() for x in qB]))]
+    rB1 = [np.array(x, dtype=float, copy=True) for x in disc1.rhs(cases.build_field(model1, mesh1, [x.copy() for x in qB]))]
+    if all(np.all(np.isfinite(x)) for x in rB0 + rB1):
+        for i, d in enumerate(src_full):
+            if d is None:
+                require(np.array_equal(rB1[i], rB0[i]), "none-source", "a None source entry changed equation %d (second state)" % i)
+                continue
+            SB = cases.source_value(d, xc, qB)
+            tolB = 1e-12 * (np.abs(rB0[i]) + np.abs(SB)) + 1e-300
+            errB = np.abs(rB1[i] - rB0[i] - SB)
+            kB = int(np.argmax(errB - tolB))
+            require(errB[kB] <= tolB[kB], "source-follows-state", "equation %d, cell %d: for a second state evaluated by the same operators, rhs_with - rhs_without = %r, source(x,Q) = %r"
+                    % (i, kB, float((rB1[i] - rB0[i])[kB]), float(SB[kB])))
     for fn in (model1.source or []):
         cache = getattr(fn, "cache", None)
         if cache and "t" in cache:
